@@ -65,6 +65,7 @@ package mice
 //@   ensures[record-size-limits] err == nil ==> typeis(rd, *decoder) && (unboxed(rd, *decoder).nextProof != nil ==> 1 <= unboxed(rd, *decoder).recordSize && unboxed(rd, *decoder).recordSize <= maxRecordSize && decReady(unboxed(rd, *decoder)))
 //@   ensures[consumed-eight] err == nil ==> spos(r) == old(spos(r)) + 8 || spos(r) == old(spos(r))
 //@   ensures[new-decoder] err == nil ==> fresh(unboxed(rd, *decoder))
+//@   ensures[refuses-only-out-of-range-sizes] err != nil && spos(r) == old(spos(r)) + 8 ==> beValue(sdata(r), old(spos(r)), 8) == 0 || beValue(sdata(r), old(spos(r)), 8) > maxRecordSize
 //@   ensures spos(r) >= old(spos(r)) && spos(r) <= send(r)
 //@   assigns spos(r)
 
